@@ -14,6 +14,9 @@ RULE = ('every history of tiny-stack hold\'em configurations (cash and tournamen
 ASSUMPTIONS = ['hold\'em-like street lists (board cards only after the first street)']
 
 
+from ..refs.pots import ref_divmod as P_ref_divmod
+
+
 class RunoutMonitor:
     name = 'runouts'
 
@@ -192,7 +195,7 @@ class RunoutMonitor:
                 pots.setdefault(o.pot_index, Counter())[o.board_index] += sum(o.amounts)
         for p, per in pots.items():
             amt = sum(per.values())
-            q, rem = st.divmod(amt, b * r)
+            q, rem = C.DIVMODS.get(ctx.cfg.get('divmod'), P_ref_divmod)(amt, b * r)
             for k in range(b * r):
                 want = q + (rem if k == 0 else 0)
                 if per.get(k, 0) != want:
@@ -236,6 +239,12 @@ def jobs(tier, seed):
                 out.append(_j(f'NT-3p-{mode}-{boards}b', C.nt((4, 6, 5), mode=mode, boards=boards, autos=SEMI), opts=o, dev_bound=6))
             out.append(_j(f'PO-2p-{mode}-{boards}b', C.nt((4, 5), mode=mode, boards=boards, autos=SEMI, game='PotLimitOmahaHoldem'),
                           opts=o))
+        if mode == 'cash':
+            # a caller-supplied split rule (shares in whole pairs of chips) governs the split over boards too
+            for boards in (1, 2):
+                for stacks in [(5, 5), (4, 7)]:
+                    out.append(_j(f'NT-2p-cash-{boards}b-caller-supplied-divmod', C.nt(stacks, mode=mode, boards=boards, autos=SEMI, divmod='pairs'),
+                                  opts=o))
         out.append(_j(f'NT-2p-{mode}-manual-dealing', C.nt((4, 4), mode=mode, autos=MANUAL_DEAL), opts=o, dev_bound=6))
         out.append(_j(f'NT-2p-{mode}-all-auto', C.nt((3, 5), mode=mode, autos='ALL'), opts=o))
         out.append(_j(f'NS-2p-{mode}', C.nt((4, 5), mode=mode, antes=1, blinds=(0, 2), autos=SEMI, game='NoLimitShortDeckHoldem'), opts=o))
